@@ -332,7 +332,11 @@ except Boom:
 size = len(buf.getvalue())
 time.sleep(0.3 if mode != "stress" else 0.2)
 alive = [t.name for t in threading.enumerate() if t is not threading.main_thread()]
-time.sleep(1.3 if alive else 0.0)
+if alive:
+    # a thread that is merely late in finishing (loaded machine) is gone after a further wait; a leaked timer
+    # chain always has a waiting Timer thread
+    time.sleep(1.3)
+    alive = [t.name for t in threading.enumerate() if t is not threading.main_thread()]
 grew = len(buf.getvalue()) - size
 print("ALIVE", len(alive), "GREW", grew)
 sys.stdout.flush()
